@@ -229,13 +229,17 @@ func arrayExecMerge(ar *Array, values []r.Element) (r.Element, error) {
 	var result []r.Element
 	result = append(result, ar.value...)
 	for _, v := range values {
-		varr := v.(*Array).value
-		result = append(result, varr...)
+		// the receiver gets copies of the merged items (nested lists stay apart)
+		for _, item := range v.(*Array).value {
+			result = append(result, DuplicateValue(item))
+		}
 	}
 	// update new array
 	ar.value = result
 
-	return NewArray(result), nil
+	// the list handed back is a list of its own: it shares neither the slice
+	// nor nested lists / dictionaries with the receiver
+	return DuplicateValue(NewArray(result)), nil
 }
 
 func arrayExecContains(ar *Array, values []r.Element) (r.Element, error) {
